@@ -1,5 +1,6 @@
 import BarterModel.Lemmas.BinanceL2
 import BarterModel.Lemmas.Review2_C06
+import BarterModel.Lemmas.PartialDepth
 import BarterModel.Lemmas.KernelsAgree.Sequencer
 /-!
 # C06 — Binance L2 streams never leave a silently wrong local book
@@ -853,6 +854,252 @@ example :
 example :
     ((Conn.start [(0, 10, exSnapshot), (1, 11, exSnapshot)]).run .futures
       [exM1, exM1', exM2', exM2]).alive = true := by decide
+
+
+/-! ## 7. additions after the review of the sub-check theorems (`audit/sub/report_A.md` #1):
+REST snapshots of LIMITED depth
+
+`GenuineSnapshot` (hypothesis of `book_is_truth`, `no_false_alarm`, `connection_start`, …) says the
+snapshot is the venue's FULL book. The code's own fetchers request `…&limit=100`
+(`/repo/barter-data/src/exchange/binance/spot/l2.rs:54`, `futures/l2.rs:57`), so in the real wiring
+the hypothesis is false for every instrument whose book is deeper than 100 levels on a side. What such
+a snapshot satisfies is `GenuineSnapshotOn v s b P`: equality with the venue's book ON the prices `P`
+it covers (`truncated_snapshot_genuine_on`: for the best-`n`-levels cut these are all prices of a side
+holding fewer than `n` levels, otherwise the prices at least as good as the side's worst level). The
+theorems of this section are the partial-depth forms; the full-depth theorems above are their
+instances at `P = everything` (`genuineSnapshot_is_on_everything`, `book_is_truth_is_the_full_depth_case`). -/
+
+/-- the full-depth hypothesis is the partial-depth one at `P = everything` -/
+theorem genuineSnapshot_is_on_everything (v : Venue) (s : Nat) (b : OrderBook) :
+    GenuineSnapshot v s b ↔ GenuineSnapshotOn v s b (fun _ _ => True) :=
+  genuineSnapshot_iff_on_all v s b
+
+/-- **what a depth-limited REST snapshot covers.** The venue's book as of `s` cut to the best `n`
+levels of each side (`truncateBook n (specBook v s)`, what `GET …/depth?…&limit=n` returns) agrees with
+the venue's book as of `s` at every price `coveredBy n` accepts: every price of a side on which the
+snapshot holds fewer than `n` levels (the side is then complete), and otherwise every price that is not
+strictly worse than the snapshot's worst level of that side (a price in that range which the snapshot
+does not list is empty at the venue). `coveredBy` is the executable test the spec drivers use. -/
+theorem truncated_snapshot_genuine_on (v : Venue) (s n : Nat) :
+    GenuineSnapshotOn v s (truncateBook n (specBook v s))
+      (fun sd p => coveredBy n sd (sideOf (truncateBook n (specBook v s)) sd) p = true) :=
+  truncated_genuine_on v s n
+
+/-- **book_is_truth_on** — `book_is_truth` for a snapshot that is right on the prices `P` only
+(both rule sets; hypothesis on the delivery as in `book_is_truth_admitted`: only a message that is
+ADMITTED has to be genuine). For every delivery processed until the first error: the local book is
+strictly ordered, reports the sequencer's last id, and **at every price that the snapshot covers (`P`),
+or that an admitted update has written since (`Local.admittedBy`, `Update.Writes`), or that the venue
+changed since the snapshot id (`Touched v s sequence`), the local book holds exactly the amount of the
+exchange's book as of the sequence number it reports** (0 = no level); an early stop is a terminal
+error. Nothing is claimed at a price outside the three sets — and nothing can be:
+`truncated_snapshot_witness`. -/
+theorem book_is_truth_on (r : Rules) (v : Venue) (s : Nat) (b0 : OrderBook) (ms : List Update)
+    (P : Side → Rat → Prop) (hs : SortedBook b0) (h0 : GenuineSnapshotOn v s b0 P)
+    (hg : ∀ pre m post, ms = pre ++ m :: post → (Local.run r (start s b0) pre).2 = none →
+      ¬ Stale r (Local.run r (start s b0) pre).1.sequencer.lastUpdateId m →
+      Extends r ((Local.run r (start s b0) pre).1.sequencer.updatesProcessed == 0)
+        (Local.run r (start s b0) pre).1.sequencer.lastUpdateId m → IsGenuine r v m) :
+    let res := Local.run r (start s b0) ms
+    SortedBook res.1.book ∧
+    res.1.book.sequence = res.1.sequencer.lastUpdateId ∧
+    (∀ sd p, (P sd p ∨ (∃ u ∈ Local.admittedBy r (start s b0) ms, u.Writes sd p) ∨
+        Touched v s res.1.book.sequence sd p) →
+      abs (sideOf res.1.book sd) p = bookAt v res.1.book.sequence sd p) ∧
+    (∀ e, res.2 = some e → e.isTerminal = true) := by
+  intro res
+  have h := syncedOn_run_admitted (r := r) (start_syncedOn v s b0 P hs h0) hg
+  refine ⟨h.sorted, h.seq, ?_, fun e he => local_run_told he⟩
+  intro sd p hp
+  apply h.known sd p
+  rcases hp with hp | hp | hp
+  · exact .inl (.inl hp)
+  · exact .inl (.inr hp)
+  · exact .inr hp
+
+/-- … with the plain hypothesis of `book_is_truth` (every message of the delivery genuine) -/
+theorem book_is_truth_on_genuine (r : Rules) (v : Venue) (s : Nat) (b0 : OrderBook) (ms : List Update)
+    (P : Side → Rat → Prop) (hs : SortedBook b0) (h0 : GenuineSnapshotOn v s b0 P)
+    (hg : ∀ m ∈ ms, IsGenuine r v m) :
+    let res := Local.run r (start s b0) ms
+    SortedBook res.1.book ∧
+    res.1.book.sequence = res.1.sequencer.lastUpdateId ∧
+    (∀ sd p, (P sd p ∨ (∃ u ∈ Local.admittedBy r (start s b0) ms, u.Writes sd p) ∨
+        Touched v s res.1.book.sequence sd p) →
+      abs (sideOf res.1.book sd) p = bookAt v res.1.book.sequence sd p) ∧
+    (∀ e, res.2 = some e → e.isTerminal = true) :=
+  book_is_truth_on r v s b0 ms P hs h0 (fun pre m post h _ _ _ => hg m (by rw [h]; simp))
+
+/-- **the full-depth theorem is the case `P = everything`**: `book_is_truth_admitted` (hence
+`book_is_truth'`, `book_is_truth`) re-derived from `book_is_truth_on` -/
+theorem book_is_truth_is_the_full_depth_case (r : Rules) (v : Venue) (s : Nat) (b0 : OrderBook)
+    (ms : List Update) (hs : SortedBook b0) (h0 : GenuineSnapshot v s b0)
+    (hg : ∀ pre m post, ms = pre ++ m :: post → (Local.run r (start s b0) pre).2 = none →
+      ¬ Stale r (Local.run r (start s b0) pre).1.sequencer.lastUpdateId m →
+      Extends r ((Local.run r (start s b0) pre).1.sequencer.updatesProcessed == 0)
+        (Local.run r (start s b0) pre).1.sequencer.lastUpdateId m → IsGenuine r v m) :
+    let res := Local.run r (start s b0) ms
+    SortedBook res.1.book ∧
+    res.1.book.sequence = res.1.sequencer.lastUpdateId ∧
+    abs res.1.book.bids = bookAt v res.1.book.sequence .bids ∧
+    abs res.1.book.asks = bookAt v res.1.book.sequence .asks ∧
+    (∀ e, res.2 = some e → e.isTerminal = true) := by
+  intro res
+  obtain ⟨h1, h2, h3, h4⟩ := book_is_truth_on r v s b0 ms (fun _ _ => True) hs
+    ((genuineSnapshot_iff_on_all v s b0).mp h0) hg
+  exact ⟨h1, h2, funext fun p => h3 .bids p (.inl trivial), funext fun p => h3 .asks p (.inl trivial), h4⟩
+
+/-- the admitted updates `book_is_truth_on` speaks about are what the sequencer admits: as long as
+`Local.run` reports no error they are exactly `admitted (Sequencer.run …)` of `admitted_chain` -/
+theorem admittedBy_is_admitted (r : Rules) (l : Local) (ms : List Update) (h : (Local.run r l ms).2 = none) :
+    Local.admittedBy r l ms = admitted (Sequencer.run r l.sequencer ms).2 := by
+  induction ms generalizing l with
+  | nil => rfl
+  | cons m ms ih =>
+    rw [local_run_cons] at h
+    rw [admittedBy_cons, run_cons]
+    rcases local_step_cases r l m with ⟨hs, hv⟩ | ⟨hs, he, hv⟩ | ⟨_, _, hv⟩
+    · rw [hv] at h ⊢
+      rw [validate_stale hs]
+      simpa [admitted] using ih l h
+    · rw [hv] at h ⊢
+      rw [validate_extends hs he]
+      simpa [admitted] using ih _ h
+    · rw [hv] at h; simp at h
+
+/-- a venue whose bid side is two levels deep: bid 99 ↦ 1 (id 1), bid 100 ↦ 1 (id 2), then the best
+bid is deleted (id 3) -/
+def exDeep : Venue := [⟨1, .bids, 99, 1⟩, ⟨2, .bids, 100, 1⟩, ⟨3, .bids, 100, 0⟩]
+
+theorem exDeep_book_at_2 : specBook exDeep 2 = ⟨2, [⟨100, 1⟩, ⟨99, 1⟩], []⟩ := by
+  have h1 : specSide exDeep 2 .bids = [⟨100, 1⟩, ⟨99, 1⟩] := by decide +kernel
+  have h2 : specSide exDeep 2 .asks = [] := by decide +kernel
+  simp only [specBook, h1, h2, PMap.levels]
+  have : ([⟨100, 1⟩, ⟨99, 1⟩] : List Level).mergeSort Side.bids.le = [⟨100, 1⟩, ⟨99, 1⟩] :=
+    sortLevels_of_sorted (s := .bids) (by decide)
+  rw [this, List.mergeSort_nil]
+
+/-- the genuine depth message for the id range `(2,3]` of `exDeep` (spot `U = 3`, futures `pu = 2`) -/
+def exDel : Update := ⟨0, 3, 3, 2, [⟨100, 0⟩], []⟩
+
+/-- **truncated_snapshot_witness** — the full-depth statement is FALSE with a depth-limited snapshot;
+kernel-checked on concrete numbers. Snapshot of `exDeep` at id 2 with `limit = 1`: it lists the best bid
+`100 ↦ 1` and not the second level `99 ↦ 1`. It is genuine on what it covers but not `GenuineSnapshot`.
+The gap-free genuine continuation `exDel` (the venue deletes its best bid) is admitted without error by
+both rule sets (spot: `U = 3 = s+1`; futures would need the message containing id 2 first — shown for
+spot) and leaves the local book with NO bid at all while the venue's best bid is `99 ↦ 1`: at the price
+99 — not covered by the snapshot, written by no admitted update, not changed by the venue since the
+snapshot — the local book differs from the exchange's book as of the sequence it reports, and the
+consumer has not been told. At the covered price 100 the book is right. (In the real wiring: a level
+beyond the 100 best of the REST snapshot is unknown to the local book until the venue next changes it;
+if the market moves through the 100 levels the local book's best prices are wrong in this sense.
+Binance documents the same caveat for its own procedure: levels outside the initial snapshot are
+learnt only when they change.) -/
+theorem truncated_snapshot_witness :
+    truncateBook 1 (specBook exDeep 2) = ⟨2, [⟨100, 1⟩], []⟩ ∧
+    specBook exDeep 2 = ⟨2, [⟨100, 1⟩, ⟨99, 1⟩], []⟩ ∧
+    SortedBook (truncateBook 1 (specBook exDeep 2)) ∧
+    ¬ GenuineSnapshot exDeep 2 (truncateBook 1 (specBook exDeep 2)) ∧
+    GenuineSnapshotOn exDeep 2 (truncateBook 1 (specBook exDeep 2))
+      (fun sd p => coveredBy 1 sd (sideOf (truncateBook 1 (specBook exDeep 2)) sd) p = true) ∧
+    Genuine .spot exDeep 2 3 exDel ∧ Genuine .futures exDeep 2 3 exDel ∧
+    (Local.run .spot (start 2 (truncateBook 1 (specBook exDeep 2))) [exDel]).2 = none ∧
+    (Local.run .spot (start 2 (truncateBook 1 (specBook exDeep 2))) [exDel]).1.book = ⟨3, [], []⟩ ∧
+    specBook exDeep 3 = ⟨3, [⟨99, 1⟩], []⟩ ∧
+    -- the uncovered, unwritten, untouched price 99: local 0, venue 1
+    abs (sideOf (Local.run .spot (start 2 (truncateBook 1 (specBook exDeep 2))) [exDel]).1.book .bids) 99 = 0 ∧
+    bookAt exDeep 3 .bids 99 = 1 ∧
+    coveredBy 1 .bids [⟨100, 1⟩] 99 = false ∧ ¬ exDel.Writes .bids 99 ∧ ¬ Touched exDeep 2 3 .bids 99 ∧
+    -- the covered price 100 is right
+    coveredBy 1 .bids [⟨100, 1⟩] 100 = true ∧
+    abs (sideOf (Local.run .spot (start 2 (truncateBook 1 (specBook exDeep 2))) [exDel]).1.book .bids) 100 =
+      bookAt exDeep 3 .bids 100 := by
+  have hb : truncateBook 1 (specBook exDeep 2) = ⟨2, [⟨100, 1⟩], []⟩ := by rw [exDeep_book_at_2]; rfl
+  refine ⟨hb, exDeep_book_at_2, ?_, ?_, truncated_genuine_on exDeep 2 1, by decide, by decide, ?_, ?_,
+    by decide +kernel, ?_, by decide +kernel, by decide +kernel, by decide, ?_, by decide +kernel, ?_⟩
+  · rw [hb]; exact ⟨by decide, by decide⟩
+  · rw [hb]
+    intro h
+    have := congrFun h.2.1 99
+    exact absurd this (by decide +kernel)
+  · rw [hb]; decide +kernel
+  · rw [hb]; decide +kernel
+  · rw [hb]; decide +kernel
+  · rintro ⟨c, hc, h1, h2, h3, h4⟩
+    simp only [exDeep, List.mem_cons, List.not_mem_nil, or_false] at hc
+    rcases hc with rfl | rfl | rfl <;> simp_all
+  · rw [hb]; decide +kernel
+
+
+/-- **level_oracle_sound** — the per-level lines of the executable oracle (`drv_c06 spec`,
+`drv_c06e spec`: `lv<k>:<side>:<price> <amount>`) are consequences of `book_is_truth_on`. For a snapshot
+that is the venue's book at `s` cut to its best `n` levels per side, any delivery whose admitted
+messages are genuine, and any list `written` of prices that admitted updates wrote: at every price the
+oracle's test `knownPrice` accepts (covered by the snapshot / in `written` / changed by the venue since
+`s`), the local book holds exactly the amount the oracle prints, `abs (specSide v sequence sd) p` — the
+venue's amount as of the sequence the book reports, computed from the venue's history alone. -/
+theorem level_oracle_sound (r : Rules) (v : Venue) (s n : Nat) (ms : List Update)
+    (written : List (Side × Rat))
+    (hg : ∀ pre m post, ms = pre ++ m :: post →
+      (Local.run r (start s (truncateBook n (specBook v s))) pre).2 = none →
+      ¬ Stale r (Local.run r (start s (truncateBook n (specBook v s))) pre).1.sequencer.lastUpdateId m →
+      Extends r ((Local.run r (start s (truncateBook n (specBook v s))) pre).1.sequencer.updatesProcessed == 0)
+        (Local.run r (start s (truncateBook n (specBook v s))) pre).1.sequencer.lastUpdateId m →
+      IsGenuine r v m)
+    (hw : ∀ sd p, (sd, p) ∈ written →
+      ∃ u ∈ Local.admittedBy r (start s (truncateBook n (specBook v s))) ms, u.Writes sd p) :
+    let res := Local.run r (start s (truncateBook n (specBook v s))) ms
+    ∀ sd p, knownPrice n (truncateBook n (specBook v s)) written v res.1.book.sequence sd p = true →
+      abs (sideOf res.1.book sd) p = abs (specSide v res.1.book.sequence sd) p := by
+  intro res sd p hk
+  have hsorted : SortedBook (truncateBook n (specBook v s)) :=
+    sortedBook_truncate (wfBook_specBook v s).toSortedBook n
+  obtain ⟨_, _, hknown, _⟩ := book_is_truth_on r v s (truncateBook n (specBook v s)) ms _ hsorted
+    (truncated_genuine_on v s n) hg
+  rw [abs_specSide]
+  apply hknown sd p
+  simp only [knownPrice, Bool.or_eq_true, List.contains_iff_mem] at hk
+  rcases hk with (hk | hk) | hk
+  · exact .inl hk
+  · exact .inr (.inl (hw sd p hk))
+  · exact .inr (.inr ((touchedB_iff v _ _ sd p).mp hk))
+
+/-! ### several instruments on one connection, partial depth -/
+
+/-- `ConnSyncedOn venues s P c`, spelled out for one subscribed instrument `a` (snapshot id `s a`,
+covered prices `P a`): the consumer holds a strictly ordered book for its key that reports the
+sequencer's last id and, at every price the snapshot covers or the venue changed since the snapshot id,
+the amount of the venue's book as of that id. -/
+theorem connSyncedOn_reading (venues : Nat → Venue) (s : Nat → Nat) (P : Nat → Side → Rat → Prop) (c : Conn)
+    (h : ConnSyncedOn venues s P c) (a : Nat) (im : Meta) (hl : c.transformer.instrumentMap.lookup a = some im) :
+    ∃ b, c.books.lookup im.key = some b ∧ SortedBook b ∧ b.sequence = im.sequencer.lastUpdateId ∧
+      ∀ sd p, (P a sd p ∨ Touched (venues a) (s a) b.sequence sd p) →
+        abs (sideOf b sd) p = bookAt (venues a) b.sequence sd p := by
+  obtain ⟨b, hb, hs⟩ := h.inv a im hl
+  exact ⟨b, hb, hs.sorted, hs.seq, hs.known⟩
+
+/-- a freshly initialised connection (distinct instrument keys; every snapshot strictly ordered and
+genuine ON ITS price set, taken at `s`) satisfies the partial-depth invariant -/
+theorem connection_start_on (venues : Nat → Venue) (s : Nat → Nat) (P : Nat → Side → Rat → Prop)
+    (insts : List (Nat × Nat × OrderBook)) (hkey : (insts.map (·.2.1)).Nodup)
+    (h : ∀ x ∈ insts, SortedBook x.2.2 ∧ GenuineSnapshotOn (venues x.1) (s x.1) x.2.2 (P x.1)) :
+    ConnSyncedOn venues s P (Conn.start insts) := connSyncedOn_start venues s P insts hkey h
+
+/-- **connection_book_is_truth_on** — `connection_book_is_truth'` for partial-depth snapshots: several
+instruments interleaved arbitrarily on one connection, genuineness demanded only of messages that are
+not dropped as stale; the invariant on the covered-or-changed prices holds after any delivery (after
+the connection died the books are frozen in that state and the consumer has been told). -/
+theorem connection_book_is_truth_on (r : Rules) (venues : Nat → Venue) (s : Nat → Nat)
+    (P : Nat → Side → Rat → Prop) (c : Conn) (ms : List Update) (hc : ConnSyncedOn venues s P c)
+    (hg : ∀ pre m post, ms = pre ++ m :: post →
+      ∀ im, (c.run r pre).transformer.instrumentMap.lookup m.sub = some im →
+      ¬ Stale r im.sequencer.lastUpdateId m → IsGenuine r (venues m.sub) m) :
+    ConnSyncedOn venues s P (c.run r ms) := connSyncedOn_run' hc hg
+
+/-- the full-depth connection invariant is the case `P = everything` (whatever the ids `s`) -/
+theorem connSynced_is_on_everything (venues : Nat → Venue) (s : Nat → Nat) (c : Conn) :
+    ConnSynced venues c ↔ ConnSyncedOn venues s (fun _ _ _ => True) c :=
+  connSynced_iff_on_all venues s c
 
 
 end BarterModel.Props.C06
